@@ -866,3 +866,20 @@ package ro
 //@   note RaceWith() without competitors is the identity
 //@   props C05 C04
 //@   ensures [identity] result == source
+
+// ---------------------------------------------------------------------------
+// Zip family: the per-source callbacks built by zipInnerSubscription (shared by ZipWith1..5)
+// ---------------------------------------------------------------------------
+
+//@ func zipInnerSubscription$3
+//@   note the completion callback of one zipped source
+//@   props C05
+//@   track destination.* subscriptions.*
+//@   ensures [a-drained-source-completes-the-output|C05] len(old(values)) == 0 ==> trace(destination.CompleteWithContext(ctx), subscriptions.Unsubscribe())
+//@   ensures [a-finished-source-with-queued-values-keeps-the-others-subscribed|C05] len(old(values)) > 0 ==> trace()
+
+//@ func zipInnerSubscription$2
+//@   note the error callback of one zipped source: the error ends the output at once and releases every source
+//@   props C05 C07
+//@   track destination.* subscriptions.*
+//@   ensures [error-ends-the-output-and-releases-the-others|C05] trace(destination.ErrorWithContext(ctx, err), subscriptions.Unsubscribe())
